@@ -73,6 +73,14 @@ impl Mode {
             None => return Ok(None),
         };
 
+        // a frame can never be smaller than its own header
+        if n < self.valid_raw_buffer_min_len() {
+            return Err(io::Error::new(
+                io::ErrorKind::InvalidData,
+                "frame is smaller than the minimum packet size",
+            ));
+        }
+
         // does this exceed the max possible packet?
         if n > self.max_length() {
             return Err(io::Error::new(
